@@ -602,7 +602,7 @@ def _incremental_json(seed):
     import measured as m
     from measured import Prefix, Quantity, Unit
     from measured.json import MeasuredJSONDecoder, MeasuredJSONEncoder
-    from text import STAGES
+    from text import STAGES, first_term_key_of
     out = {"n": 0, "bad": []}
     for si, stage in enumerate(STAGES, start=1):
         for mod in stage:
@@ -615,7 +615,7 @@ def _incremental_json(seed):
         for u in units:
             for p in [None] + prefixes:
                 unit = u if p is None else p * u
-                tag = "%s+%s" % (p.symbol if p else "", u.symbol)
+                tag = first_term_key_of(unit)       # the text that str() writes first: prefix symbol + first factor's symbol
                 q = Quantity(3, unit)
                 out["n"] += 1
                 text = str(unit)
